@@ -284,6 +284,13 @@ func Tokenize(source string) ([]Token, error) {
 				err = fmt.Errorf("string at row %d, column %d has not been terminated", ogRow, ogColumn)
 				break
 			}
+
+			// A (raw) string may span several lines: count them and re-base the column.
+			if n := strings.Count(source[ogI:i], "\n"); n > 0 {
+				row += n
+				ogColumn = startIndex
+				ogI += strings.LastIndex(source[ogI:i], "\n") + 1
+			}
 		} else if matches := regexp.MustCompile(`(?s)^\/\*(.*?)\*\/`).FindStringSubmatch(source[i:]); matches != nil {
 			// Multiline comment.
 			token = newToken(matches[1], COMMENT, ogRow, ogColumn)
